@@ -4,7 +4,10 @@
 //! rely on that: a field that is skipped for some values cannot be decoded.
 //! Mounted as `crate::verif_kani_schema` under cfg(kani).
 #![allow(dead_code)]
-use serde::ser::{self, Serialize, SerializeMap, SerializeSeq, SerializeStruct, SerializeStructVariant, SerializeTuple, SerializeTupleStruct, SerializeTupleVariant, Serializer};
+use serde::ser::{
+    self, Serialize, SerializeMap, SerializeSeq, SerializeStruct, SerializeStructVariant,
+    SerializeTuple, SerializeTupleStruct, SerializeTupleVariant, Serializer,
+};
 use std::fmt;
 
 #[derive(Debug)]
@@ -62,65 +65,191 @@ impl<'a> Serializer for Rec<'a> {
     type SerializeMap = Rec<'a>;
     type SerializeStruct = Rec<'a>;
     type SerializeStructVariant = Rec<'a>;
-    prim!(serialize_bool(bool) = 1, serialize_i8(i8) = 2, serialize_i16(i16) = 3, serialize_i32(i32) = 4, serialize_i64(i64) = 5, serialize_u8(u8) = 6, serialize_u16(u16) = 7,
-          serialize_u32(u32) = 8, serialize_u64(u64) = 9, serialize_f32(f32) = 10, serialize_f64(f64) = 11, serialize_char(char) = 12, serialize_str(&str) = 13, serialize_bytes(&[u8]) = 14);
-    fn serialize_none(self) -> Result<(), E> { self.0.push(PRIM | 15); Ok(()) }
-    fn serialize_some<T: ?Sized + Serialize>(self, v: &T) -> Result<(), E> { self.0.push(PRIM | 16); v.serialize(Rec(self.0)) }
-    fn serialize_unit(self) -> Result<(), E> { self.0.push(PRIM | 17); Ok(()) }
-    fn serialize_unit_struct(self, _: &'static str) -> Result<(), E> { self.0.push(PRIM | 18); Ok(()) }
-    fn serialize_unit_variant(self, _: &'static str, idx: u32, _: &'static str) -> Result<(), E> { let _ = idx; self.0.push(UVARIANT); Ok(()) }
-    fn serialize_newtype_struct<T: ?Sized + Serialize>(self, _: &'static str, v: &T) -> Result<(), E> { self.0.push(NEWTYPE); v.serialize(Rec(self.0)) }
-    fn serialize_newtype_variant<T: ?Sized + Serialize>(self, _: &'static str, idx: u32, _: &'static str, v: &T) -> Result<(), E> { self.0.push(NVARIANT | (idx as u16 & 0xff)); v.serialize(Rec(self.0)) }
-    fn serialize_seq(self, len: Option<usize>) -> Result<Rec<'a>, E> { self.0.push(SEQ | (len.unwrap_or(0xfff) as u16 & 0xfff)); Ok(self) }
-    fn serialize_tuple(self, len: usize) -> Result<Rec<'a>, E> { self.0.push(TUPLE | (len as u16 & 0xfff)); Ok(self) }
-    fn serialize_tuple_struct(self, _: &'static str, len: usize) -> Result<Rec<'a>, E> { self.0.push(TUPLE | (len as u16 & 0xfff)); Ok(self) }
-    fn serialize_tuple_variant(self, _: &'static str, idx: u32, _: &'static str, len: usize) -> Result<Rec<'a>, E> { self.0.push(SVARIANT | ((idx as u16 & 0xf) << 8) | (len as u16 & 0xff)); Ok(self) }
-    fn serialize_map(self, len: Option<usize>) -> Result<Rec<'a>, E> { self.0.push(SEQ | (len.unwrap_or(0xfff) as u16 & 0xfff)); Ok(self) }
-    fn serialize_struct(self, _: &'static str, len: usize) -> Result<Rec<'a>, E> { self.0.push(STRUCT | (len as u16 & 0xfff)); Ok(self) }
-    fn serialize_struct_variant(self, _: &'static str, idx: u32, _: &'static str, len: usize) -> Result<Rec<'a>, E> { self.0.push(SVARIANT | ((idx as u16 & 0xf) << 8) | (len as u16 & 0xff)); Ok(self) }
+    prim!(
+        serialize_bool(bool) = 1,
+        serialize_i8(i8) = 2,
+        serialize_i16(i16) = 3,
+        serialize_i32(i32) = 4,
+        serialize_i64(i64) = 5,
+        serialize_u8(u8) = 6,
+        serialize_u16(u16) = 7,
+        serialize_u32(u32) = 8,
+        serialize_u64(u64) = 9,
+        serialize_f32(f32) = 10,
+        serialize_f64(f64) = 11,
+        serialize_char(char) = 12,
+        serialize_str(&str) = 13,
+        serialize_bytes(&[u8]) = 14
+    );
+    fn serialize_none(self) -> Result<(), E> {
+        self.0.push(PRIM | 15);
+        Ok(())
+    }
+    fn serialize_some<T: ?Sized + Serialize>(self, v: &T) -> Result<(), E> {
+        self.0.push(PRIM | 16);
+        v.serialize(Rec(self.0))
+    }
+    fn serialize_unit(self) -> Result<(), E> {
+        self.0.push(PRIM | 17);
+        Ok(())
+    }
+    fn serialize_unit_struct(self, _: &'static str) -> Result<(), E> {
+        self.0.push(PRIM | 18);
+        Ok(())
+    }
+    fn serialize_unit_variant(self, _: &'static str, idx: u32, _: &'static str) -> Result<(), E> {
+        let _ = idx;
+        self.0.push(UVARIANT);
+        Ok(())
+    }
+    fn serialize_newtype_struct<T: ?Sized + Serialize>(
+        self,
+        _: &'static str,
+        v: &T,
+    ) -> Result<(), E> {
+        self.0.push(NEWTYPE);
+        v.serialize(Rec(self.0))
+    }
+    fn serialize_newtype_variant<T: ?Sized + Serialize>(
+        self,
+        _: &'static str,
+        idx: u32,
+        _: &'static str,
+        v: &T,
+    ) -> Result<(), E> {
+        self.0.push(NVARIANT | (idx as u16 & 0xff));
+        v.serialize(Rec(self.0))
+    }
+    fn serialize_seq(self, len: Option<usize>) -> Result<Rec<'a>, E> {
+        self.0.push(SEQ | (len.unwrap_or(0xfff) as u16 & 0xfff));
+        Ok(self)
+    }
+    fn serialize_tuple(self, len: usize) -> Result<Rec<'a>, E> {
+        self.0.push(TUPLE | (len as u16 & 0xfff));
+        Ok(self)
+    }
+    fn serialize_tuple_struct(self, _: &'static str, len: usize) -> Result<Rec<'a>, E> {
+        self.0.push(TUPLE | (len as u16 & 0xfff));
+        Ok(self)
+    }
+    fn serialize_tuple_variant(
+        self,
+        _: &'static str,
+        idx: u32,
+        _: &'static str,
+        len: usize,
+    ) -> Result<Rec<'a>, E> {
+        self.0
+            .push(SVARIANT | ((idx as u16 & 0xf) << 8) | (len as u16 & 0xff));
+        Ok(self)
+    }
+    fn serialize_map(self, len: Option<usize>) -> Result<Rec<'a>, E> {
+        self.0.push(SEQ | (len.unwrap_or(0xfff) as u16 & 0xfff));
+        Ok(self)
+    }
+    fn serialize_struct(self, _: &'static str, len: usize) -> Result<Rec<'a>, E> {
+        self.0.push(STRUCT | (len as u16 & 0xfff));
+        Ok(self)
+    }
+    fn serialize_struct_variant(
+        self,
+        _: &'static str,
+        idx: u32,
+        _: &'static str,
+        len: usize,
+    ) -> Result<Rec<'a>, E> {
+        self.0
+            .push(SVARIANT | ((idx as u16 & 0xf) << 8) | (len as u16 & 0xff));
+        Ok(self)
+    }
 }
 impl<'a> SerializeSeq for Rec<'a> {
     type Ok = ();
     type Error = E;
-    fn serialize_element<T: ?Sized + Serialize>(&mut self, v: &T) -> Result<(), E> { self.0.push(ELEM); v.serialize(Rec(self.0)) }
-    fn end(self) -> Result<(), E> { self.0.push(END); Ok(()) }
+    fn serialize_element<T: ?Sized + Serialize>(&mut self, v: &T) -> Result<(), E> {
+        self.0.push(ELEM);
+        v.serialize(Rec(self.0))
+    }
+    fn end(self) -> Result<(), E> {
+        self.0.push(END);
+        Ok(())
+    }
 }
 impl<'a> SerializeTuple for Rec<'a> {
     type Ok = ();
     type Error = E;
-    fn serialize_element<T: ?Sized + Serialize>(&mut self, v: &T) -> Result<(), E> { self.0.push(ELEM); v.serialize(Rec(self.0)) }
-    fn end(self) -> Result<(), E> { self.0.push(END); Ok(()) }
+    fn serialize_element<T: ?Sized + Serialize>(&mut self, v: &T) -> Result<(), E> {
+        self.0.push(ELEM);
+        v.serialize(Rec(self.0))
+    }
+    fn end(self) -> Result<(), E> {
+        self.0.push(END);
+        Ok(())
+    }
 }
 impl<'a> SerializeTupleStruct for Rec<'a> {
     type Ok = ();
     type Error = E;
-    fn serialize_field<T: ?Sized + Serialize>(&mut self, v: &T) -> Result<(), E> { self.0.push(ELEM); v.serialize(Rec(self.0)) }
-    fn end(self) -> Result<(), E> { self.0.push(END); Ok(()) }
+    fn serialize_field<T: ?Sized + Serialize>(&mut self, v: &T) -> Result<(), E> {
+        self.0.push(ELEM);
+        v.serialize(Rec(self.0))
+    }
+    fn end(self) -> Result<(), E> {
+        self.0.push(END);
+        Ok(())
+    }
 }
 impl<'a> SerializeTupleVariant for Rec<'a> {
     type Ok = ();
     type Error = E;
-    fn serialize_field<T: ?Sized + Serialize>(&mut self, v: &T) -> Result<(), E> { self.0.push(ELEM); v.serialize(Rec(self.0)) }
-    fn end(self) -> Result<(), E> { self.0.push(END); Ok(()) }
+    fn serialize_field<T: ?Sized + Serialize>(&mut self, v: &T) -> Result<(), E> {
+        self.0.push(ELEM);
+        v.serialize(Rec(self.0))
+    }
+    fn end(self) -> Result<(), E> {
+        self.0.push(END);
+        Ok(())
+    }
 }
 impl<'a> SerializeMap for Rec<'a> {
     type Ok = ();
     type Error = E;
-    fn serialize_key<T: ?Sized + Serialize>(&mut self, v: &T) -> Result<(), E> { self.0.push(ELEM); v.serialize(Rec(self.0)) }
-    fn serialize_value<T: ?Sized + Serialize>(&mut self, v: &T) -> Result<(), E> { self.0.push(ELEM); v.serialize(Rec(self.0)) }
-    fn end(self) -> Result<(), E> { self.0.push(END); Ok(()) }
+    fn serialize_key<T: ?Sized + Serialize>(&mut self, v: &T) -> Result<(), E> {
+        self.0.push(ELEM);
+        v.serialize(Rec(self.0))
+    }
+    fn serialize_value<T: ?Sized + Serialize>(&mut self, v: &T) -> Result<(), E> {
+        self.0.push(ELEM);
+        v.serialize(Rec(self.0))
+    }
+    fn end(self) -> Result<(), E> {
+        self.0.push(END);
+        Ok(())
+    }
 }
 impl<'a> SerializeStruct for Rec<'a> {
     type Ok = ();
     type Error = E;
-    fn serialize_field<T: ?Sized + Serialize>(&mut self, _: &'static str, v: &T) -> Result<(), E> { self.0.push(FIELD); v.serialize(Rec(self.0)) }
-    fn end(self) -> Result<(), E> { self.0.push(END); Ok(()) }
+    fn serialize_field<T: ?Sized + Serialize>(&mut self, _: &'static str, v: &T) -> Result<(), E> {
+        self.0.push(FIELD);
+        v.serialize(Rec(self.0))
+    }
+    fn end(self) -> Result<(), E> {
+        self.0.push(END);
+        Ok(())
+    }
 }
 impl<'a> SerializeStructVariant for Rec<'a> {
     type Ok = ();
     type Error = E;
-    fn serialize_field<T: ?Sized + Serialize>(&mut self, _: &'static str, v: &T) -> Result<(), E> { self.0.push(FIELD); v.serialize(Rec(self.0)) }
-    fn end(self) -> Result<(), E> { self.0.push(END); Ok(()) }
+    fn serialize_field<T: ?Sized + Serialize>(&mut self, _: &'static str, v: &T) -> Result<(), E> {
+        self.0.push(FIELD);
+        v.serialize(Rec(self.0))
+    }
+    fn end(self) -> Result<(), E> {
+        self.0.push(END);
+        Ok(())
+    }
 }
 
 fn same_shape(a: &Shape, b: &Shape) -> bool {
@@ -149,7 +278,11 @@ fn any_trace_context() -> crate::trace::Context {
     crate::trace::Context {
         trace_id: t.into(),
         span_id: s.into(),
-        sampling_decision: if kani::any() { crate::trace::SamplingDecision::Sampled } else { crate::trace::SamplingDecision::Unsampled },
+        sampling_decision: if kani::any() {
+            crate::trace::SamplingDecision::Sampled
+        } else {
+            crate::trace::SamplingDecision::Unsampled
+        },
     }
 }
 
@@ -159,14 +292,23 @@ fn any_trace_context() -> crate::trace::Context {
 #[kani::proof]
 #[kani::unwind(82)]
 fn k1_cancel_shape_is_value_independent() {
-    let any = crate::ClientMessage::<u32>::Cancel { trace_context: any_trace_context(), request_id: kani::any() };
-    let dflt = crate::ClientMessage::<u32>::Cancel { trace_context: Default::default(), request_id: 0 };
+    let any = crate::ClientMessage::<u32>::Cancel {
+        trace_context: any_trace_context(),
+        request_id: kani::any(),
+    };
+    let dflt = crate::ClientMessage::<u32>::Cancel {
+        trace_context: Default::default(),
+        request_id: 0,
+    };
     let a = shape_of(&any);
     let d = shape_of(&dflt);
     kani::cover!(a.n > 8, "reachable");
     assert!(a.n <= CAP && d.n <= CAP, "recorder large enough");
     assert!(same_shape(&a, &d), "C15: the wire shape of Cancel does not depend on the values (no field is skipped for some values)");
-    assert!(a.ev[0] == (SVARIANT | (1 << 8) | 2), "C15: Cancel is variant 1 and declares its 2 fields");
+    assert!(
+        a.ev[0] == (SVARIANT | (1 << 8) | 2),
+        "C15: Cancel is variant 1 and declares its 2 fields"
+    );
 }
 
 /// C15: same for a Request: shape independent of id, body and trace context; all 3 + 2 + 3 fields written.
@@ -178,11 +320,29 @@ fn k1_request_shape_is_value_independent() {
     let now = any_instant();
     set_now(now);
     let mk = |ctx: crate::trace::Context, deadline, id: u64, body: u32| {
-        crate::ClientMessage::Request(crate::Request { context: crate::context::Context { deadline, trace_context: ctx }, id, message: body })
+        crate::ClientMessage::Request(crate::Request {
+            context: crate::context::Context {
+                deadline,
+                trace_context: ctx,
+            },
+            id,
+            message: body,
+        })
     };
-    let a = shape_of(&mk(any_trace_context(), any_instant(), kani::any(), kani::any()));
+    let a = shape_of(&mk(
+        any_trace_context(),
+        any_instant(),
+        kani::any(),
+        kani::any(),
+    ));
     let d = shape_of(&mk(Default::default(), now, 0, 0));
     assert!(a.n <= CAP && d.n <= CAP, "recorder large enough");
-    assert!(same_shape(&a, &d), "C15: the wire shape of Request does not depend on the values");
-    assert!(a.ev[0] == (NVARIANT | 0) && a.ev[1] == (STRUCT | 3), "C15: Request is variant 0 wrapping a 3-field struct");
+    assert!(
+        same_shape(&a, &d),
+        "C15: the wire shape of Request does not depend on the values"
+    );
+    assert!(
+        a.ev[0] == (NVARIANT | 0) && a.ev[1] == (STRUCT | 3),
+        "C15: Request is variant 0 wrapping a 3-field struct"
+    );
 }
